@@ -339,17 +339,17 @@ theorem openToken_no_panic {σ} (dm : Daemon σ) (s0 : σ) (tc : TokenConf) : (o
               | panic x => simp [Out.isPanic] at ht
               | block => simp [Out.isPanic]
 
-/-- **the nil dereference**: GetKey panics exactly when the key is configured and no key info of the token matches its id -/
-theorem getKey_panic_iff {σ} (dm : Daemon σ) (t : Token σ) (name : String) :
-    (getKey dm t name).2.isPanic = true ↔
-      ∃ kc, t.conf.keys.find? (·.name = name) = some kc ∧ findKey t.keyInfos kc.id = none := by
-  unfold getKey
+/-- GetKey panics exactly when the no-match outcome is a panic, the key is configured and no key info of the token matches its id -/
+theorem getKeyWith_panic_iff {σ} (onNil : Out Key) (dm : Daemon σ) (t : Token σ) (name : String) :
+    (getKeyWith onNil dm t name).2.isPanic = true ↔
+      onNil.isPanic = true ∧ ∃ kc, t.conf.keys.find? (·.name = name) = some kc ∧ findKey t.keyInfos kc.id = none := by
+  unfold getKeyWith
   cases hk : t.conf.keys.find? (·.name = name) with
   | none => simp [Out.isPanic]
   | some kc =>
     simp only
     cases hf : findKey t.keyInfos kc.id with
-    | none => simp [Out.isPanic, hf]
+    | none => simp [hf]
     | some k =>
       simp only
       by_cases he : k.keyId.isEmpty
@@ -364,6 +364,30 @@ theorem getKey_panic_iff {σ} (dm : Daemon σ) (t : Token σ) (name : String) :
           | fail e => simp [Out.isPanic, hf]
           | panic x => simp [Out.isPanic] at hp
           | block => simp [Out.isPanic, hf]
+
+/-- **the nil dereference of the original code** (before e11c4f9) -/
+theorem getKeyOrig_panic_iff {σ} (dm : Daemon σ) (t : Token σ) (name : String) :
+    (getKeyOrig dm t name).2.isPanic = true ↔
+      ∃ kc, t.conf.keys.find? (·.name = name) = some kc ∧ findKey t.keyInfos kc.id = none := by
+  unfold getKeyOrig
+  rw [getKeyWith_panic_iff]
+  simp [Out.isPanic]
+
+/-- the code as it is: GetKey never panics, against any daemon, from any token state -/
+theorem getKey_no_panic {σ} (dm : Daemon σ) (t : Token σ) (name : String) : (getKey dm t name).2.isPanic = false := by
+  cases h : (getKey dm t name).2.isPanic with
+  | false => rfl
+  | true =>
+    unfold getKey at h
+    have := (getKeyWith_panic_iff _ dm t name).mp h
+    simp [Out.isPanic] at this
+
+/-- the no-match case is the error "key … not found in token …" -/
+theorem getKey_unmatched {σ} (dm : Daemon σ) (t : Token σ) (name : String) (kc : KeyConf)
+    (h1 : t.conf.keys.find? (·.name = name) = some kc) (h2 : findKey t.keyInfos kc.id = none) :
+    getKey dm t name = (t, .fail (.msg "notfound")) := by
+  unfold getKey getKeyWith
+  simp [h1, h2]
 
 theorem keySign_no_panic {σ} (dm : Daemon σ) (t : Token σ) (k : Key) (d : Bytes) (o : SignOpts) :
     (keySign dm t k d o).2.isPanic = false := by
